@@ -169,6 +169,9 @@ type caseJSON struct {
 	Query      string      `json:"query,omitempty"`
 	Body       string      `json:"body,omitempty"`
 	Headers    [][2]string `json:"headers,omitempty"`
+	// response side (phases 3 and 4); RespBody "" with NoResponse false still runs the phases
+	RespHeaders [][2]string `json:"resp_headers,omitempty"`
+	RespBody    string      `json:"resp_body,omitempty"`
 	Reps       int         `json:"reps,omitempty"`
 	Observed   any         `json:"observed,omitempty"`
 	Part       string      `json:"part,omitempty"`
@@ -502,8 +505,9 @@ func (e *capEvent) IsEnabled() bool                              { return true }
 
 func directives(rules []ruleJ, ident bool) string {
 	var b strings.Builder
-	b.WriteString("SecRuleEngine On\nSecRequestBodyAccess On\n")
+	b.WriteString("SecRuleEngine On\nSecRequestBodyAccess On\nSecResponseBodyAccess On\nSecResponseBodyMimeType text/plain\n")
 	b.WriteString("SecAction \"id:9000,phase:1,pass,nolog,setvar:tx.v=Hello%20World,setvar:tx.w=%{REQUEST_HEADERS.y}\"\n")
+	b.WriteString("SecAction \"id:9001,phase:3,pass,nolog,setvar:tx.v=ThirD%20Phase\"\n")
 	for k, r := range rules {
 		acts := fmt.Sprintf("id:%d,phase:%d,pass,log,setenv:c12v=r%d,t:none", r.ID, r.Phase, r.ID)
 		if r.ChainChild {
@@ -546,7 +550,8 @@ type ruleObs struct {
 
 type txObs struct {
 	Rules map[int]*ruleObs
-	Dumps [][]corazawaf.VerifC12Entry // after phase 1, 2, 5
+	Dumps      [][]corazawaf.VerifC12Entry // after each processing step
+	DumpPhases []int                       // the phase RuleGroup.Eval ran last when the dump was taken
 }
 
 func runTx(waf *corazawaf.WAF, sink *capSink, cj caseJSON, wantDump bool) txObs {
@@ -557,6 +562,7 @@ func runTx(waf *corazawaf.WAF, sink *capSink, cj caseJSON, wantDump bool) txObs 
 	dump := func() {
 		if wantDump {
 			obs.Dumps = append(obs.Dumps, corazawaf.VerifC12Dump(tx.VerifC12Cache()))
+			obs.DumpPhases = append(obs.DumpPhases, tx.VerifC12LastPhase())
 		}
 	}
 	method := "GET"
@@ -576,6 +582,17 @@ func runTx(waf *corazawaf.WAF, sink *capSink, cj caseJSON, wantDump bool) txObs 
 		_, _, _ = tx.WriteRequestBody([]byte(cj.Body))
 	}
 	_, _ = tx.ProcessRequestBody()
+	dump()
+	for _, h := range cj.RespHeaders {
+		tx.AddResponseHeader(h[0], h[1])
+	}
+	tx.AddResponseHeader("Content-Type", "text/plain")
+	tx.ProcessResponseHeaders(200, "HTTP/1.1")
+	dump()
+	if cj.RespBody != "" {
+		_, _, _ = tx.WriteResponseBody([]byte(cj.RespBody))
+	}
+	_, _ = tx.ProcessResponseBody()
 	dump()
 	tx.ProcessLogging()
 	dump()
@@ -671,7 +688,10 @@ func (rn *runner) runWAF(cj caseJSON) {
 		if !ok {
 			modelled = false
 		}
-		ruleTerms[k] = fmt.Sprintf("(%s, %s)", chain, vh.Bool(r.Multi))
+		ruleTerms[k] = fmt.Sprintf("(%s, %s, %s)", chain, vh.Bool(r.Multi), nat(r.Phase))
+		if r.Phase < 1 || r.Phase > 5 {
+			modelled = false
+		}
 	}
 	emitted := map[string]bool{}
 	interesting := false
@@ -745,10 +765,28 @@ func (rn *runner) runWAF(cj caseJSON) {
 			c.Observed = pj
 			rn.emit(fmt.Sprintf("CW %s %s", vh.List(ruleTerms), vh.List(per)), c)
 		}
-		// the real cache after each phase satisfies the invariant
+		// the real cache after each phase: every entry satisfies the invariant and was computed
+		// from a value a rule of THAT phase started from (nothing survives the clearing)
 		if rep == 0 && modelled {
-			var ents []string
-			for _, d := range pObs.Dumps {
+			for di, d := range pObs.Dumps {
+				ph := pObs.DumpPhases[di]
+				if di > 0 && pObs.DumpPhases[di-1] == ph {
+					continue // this processing step did not evaluate a phase
+				}
+				var started []string
+				seenStart := map[string]bool{}
+				for k, r := range cj.Rules {
+					if r.Phase != ph {
+						continue
+					}
+					for _, o := range recLog[k] {
+						if !seenStart[o] {
+							seenStart[o] = true
+							started = append(started, o)
+						}
+					}
+				}
+				var ents []string
 				for _, e := range d {
 					names := chainOf(e.ChainID)
 					chain, ok := coqChain(names)
@@ -757,10 +795,11 @@ func (rn *runner) runWAF(cj caseJSON) {
 					}
 					ents = append(ents, fmt.Sprintf("(%s, %s, %s, %s)", chain, vh.HxS(e.Input), vh.HxS(e.Output), natList(errCodes(e.Errs))))
 				}
-			}
-			if len(ents) > 0 {
+				if len(ents) == 0 {
+					continue
+				}
 				sort.Strings(ents)
-				if max := rn.cfg.Pick(12, 24); len(ents) > max && rn.cfg.Replay == "" {
+				if max := rn.cfg.Pick(5, 12); len(ents) > max && rn.cfg.Replay == "" {
 					// a deterministic sample (every k-th entry)
 					var sm []string
 					for i := 0; i < max; i++ {
@@ -769,10 +808,10 @@ func (rn *runner) runWAF(cj caseJSON) {
 					ents = sm
 				}
 				c := cj
-				c.Part = "cache-dump"
+				c.Part = fmt.Sprintf("cache-dump after phase %d", ph)
 				c.Observed = len(ents)
-				rn.emit(fmt.Sprintf("CI %s", vh.List(ents)), c)
-				rn.res.InputDistribution["waf_cache_entries_"+bucket(len(ents))]++
+				rn.emit(fmt.Sprintf("CI %s %s", vh.HxList(started), vh.List(ents)), c)
+				rn.res.InputDistribution[fmt.Sprintf("waf_cache_dump_phase_%d", ph)]++
 			}
 		}
 	}
@@ -958,7 +997,11 @@ var targets = []targetT{
 	{"ARGS:a", true, "ARGS", false}, {"ARGS:b", true, "ARGS", false},
 	{"ARGS_GET", false, "ARGS_GET", false}, {"ARGS_GET:a", true, "ARGS_GET", false}, {"ARGS_GET|!ARGS_GET:a", false, "ARGS_GET", false},
 	{"ARGS_NAMES", false, "ARGS_NAMES", false}, {"ARGS_GET_NAMES", false, "ARGS_GET_NAMES", false},
-	{"ARGS_POST", false, "ARGS_POST", true}, {"ARGS_POST:a", true, "ARGS_POST", true},
+	{"ARGS_POST", false, "ARGS_POST", false}, {"ARGS_POST:a", false, "ARGS_POST", false},
+	{"REQUEST_BODY", false, "REQUEST_BODY", false}, {"REQUEST_BODY", false, "REQUEST_BODY", false},
+	{"RESPONSE_BODY", false, "RESPONSE_BODY", false}, {"RESPONSE_BODY", false, "RESPONSE_BODY", false},
+	{"RESPONSE_HEADERS", false, "RESPONSE_HEADERS", false}, {"RESPONSE_HEADERS:x-r", false, "RESPONSE_HEADERS", false},
+	{"RESPONSE_STATUS", false, "RESPONSE_STATUS", false}, {"RESPONSE_CONTENT_TYPE", false, "RESPONSE_CONTENT_TYPE", false},
 	{"REQUEST_HEADERS", false, "REQUEST_HEADERS", false}, {"REQUEST_HEADERS:x", true, "REQUEST_HEADERS", false},
 	{"REQUEST_COOKIES", false, "REQUEST_COOKIES", false}, {"REQUEST_COOKIES_NAMES", false, "REQUEST_COOKIES_NAMES", false},
 	{"MATCHED_VAR", true, "MATCHED_VAR", false}, {"MATCHED_VAR", true, "MATCHED_VAR", false}, {"MATCHED_VAR_NAME", true, "MATCHED_VAR_NAME", false},
@@ -971,16 +1014,70 @@ var queries = []string{"a=ONE&a=TWO&b=x", "a=ONE&a=TWO&b=three", "a=one&b=Two&c=
 	"a=ONE&a=one&a=One&b=ONE", "a=6F6e65&a=zz&b=4f4E45", "a=%20x%20&a=x&b=+x+", "a=A&b=a&c=B&d=b&a=B", "a=Hello%20World&a=HELLO+WORLD&b=hello%20world"}
 var bodies = []string{"", "", "a=four&d=FIVE", "e=1&f=2&a=two", "a=ONE&a=TWO", "b=x&a=ONE"}
 
+// targets whose content differs from phase to phase: the bodies (empty before their phase), the
+// argument collections (the body is parsed between phases 1 and 2), the response collections
+// (empty before phase 3), TX:v (rewritten in phase 3), plus one that never changes
+var crossTargets = []string{"REQUEST_BODY", "REQUEST_BODY", "RESPONSE_BODY", "RESPONSE_BODY", "ARGS", "ARGS_POST", "ARGS_NAMES", "ARGS:a",
+	"RESPONSE_HEADERS", "RESPONSE_HEADERS:x-r", "RESPONSE_STATUS", "RESPONSE_CONTENT_TYPE", "TX:v", "REQUEST_HEADERS:x", "&ARGS", "&ARGS_POST"}
+var crossCompanions = []string{"REQUEST_HEADERS:x", "REQUEST_HEADERS:nosuch", "REQUEST_METHOD", "ARGS_GET:b", "RESPONSE_HEADERS:x-r", "REQUEST_BODY", "RESPONSE_BODY"}
+var respBodies = []string{"Hello RESPONSE Body", "  MiXed  Case\t<B>", "6F6e65", "", "a=ONE&b=%54wo"}
+
+// genCross: the SAME target looked at in several phases of one transaction by rules sharing
+// their transformation lists fully or partially
+func genCross(r *rand.Rand, cj *caseJSON, base []string) {
+	phases := []int{1, 2, 3, 4, 5}
+	r.Shuffle(len(phases), func(i, j int) { phases[i], phases[j] = phases[j], phases[i] })
+	phases = phases[:2+r.Intn(3)]
+	sort.Ints(phases)
+	tg := crossTargets[r.Intn(len(crossTargets))]
+	chain := genChain(r, base)
+	if len(chain) == 0 {
+		chain = []string{"lowercase"}
+	}
+	for i, ph := range phases {
+		t := tg
+		if r.Intn(3) == 0 { // as one target of a multi-target rule
+			c := crossCompanions[r.Intn(len(crossCompanions))]
+			if strings.SplitN(c, ":", 2)[0] != strings.SplitN(strings.TrimPrefix(tg, "&"), ":", 2)[0] {
+				if r.Intn(2) == 0 {
+					t = c + "|" + tg
+				} else {
+					t = tg + "|" + c
+				}
+			}
+		}
+		ts := append([]string(nil), chain...)
+		switch r.Intn(4) {
+		case 0: // a longer list
+			ts = append(ts, builtin[1+r.Intn(len(builtin)-1)].Go)
+		case 1: // a prefix
+			ts = ts[:1+r.Intn(len(ts))]
+		}
+		cj.Rules = append(cj.Rules, ruleJ{ID: 100 + len(cj.Rules), Phase: ph, Targets: t, T: ts, Multi: i > 0 && r.Intn(12) == 0})
+	}
+}
+
 func genWAF(r *rand.Rand) caseJSON {
 	base := genChainPool(r)
 	cj := caseJSON{Kind: "waf", Query: queries[r.Intn(len(queries))], Body: bodies[r.Intn(len(bodies))]}
 	cj.Headers = [][2]string{{"X", "One"}, {"x", "TWO"}, {"Cookie", "a=one; b=Two; a=THREE"}, {"Y", "ONE"}}
+	cj.RespHeaders = [][2]string{{"X-R", "Resp One"}, {"x-r", "RESP two"}, {"Z", "zed"}}
+	cj.RespBody = respBodies[r.Intn(len(respBodies))]
+	if r.Intn(3) == 0 {
+		if cj.Body == "" || r.Intn(2) == 0 {
+			cj.Body = []string{"a=four&d=FIVE", "q=%3CSCRIPT%3E+x&a=ONE", "b=x&a=ONE"}[r.Intn(3)]
+		}
+		for n := 1 + r.Intn(2); n > 0; n-- {
+			genCross(r, &cj, base)
+		}
+		return cj
+	}
 	nr := 2 + r.Intn(5)
 	phase := 1 + r.Intn(2)
 	prevSingle := false
 	for i := 0; i < nr; i++ {
 		if r.Intn(5) == 0 {
-			phase = []int{1, 2, 2, 5}[r.Intn(4)]
+			phase = []int{1, 2, 2, 3, 4, 4, 5}[r.Intn(7)]
 		}
 		if i > 0 && phase < cj.Rules[i-1].Phase && r.Intn(2) == 0 {
 			phase = cj.Rules[i-1].Phase
@@ -998,9 +1095,6 @@ func genWAF(r *rand.Rand) caseJSON {
 			}
 			if strings.HasPrefix(t.S, "MATCHED_VAR") && !(len(ts) == 0 && prevSingle && i > 0 && cj.Rules[i-1].Phase == phase) {
 				// MATCHED_VAR after a rule that matched several keys depends on hash order (C04's finding F26)
-				continue
-			}
-			if t.Phase2 && phase < 2 {
 				continue
 			}
 			used[t.Col] = true
